@@ -13,6 +13,9 @@ type fieldMasksNode struct {
 	globalProcess bool
 	globalIgnore  bool
 	children      map[string]*fieldMasksNode
+	// rest is the node for the fields that are not among the children: they are
+	// nested in this node's field, so they are in every list this field is in
+	rest *fieldMasksNode
 }
 
 func newFieldMasksNode() *fieldMasksNode {
@@ -35,6 +38,40 @@ func addFieldsToTree(root *fieldMasksNode, fieldPaths [][]string, cb func(*field
 			}
 			curNode = nextNode
 		}
+	}
+}
+
+// inheritLists copies the lists a field is in to the fields nested in it: a listed
+// field covers all nested fields, even if another list names one of them.
+func (n *fieldMasksNode) inheritLists(parent *fieldMasksNode) {
+	if parent != nil {
+		for i := range parent.processMasks {
+			if n.processMasks == nil {
+				n.processMasks = make(map[int]struct{})
+			}
+			n.processMasks[i] = struct{}{}
+		}
+		for i := range parent.ignoreMasks {
+			if n.ignoreMasks == nil {
+				n.ignoreMasks = make(map[int]struct{})
+			}
+			n.ignoreMasks[i] = struct{}{}
+		}
+		n.globalProcess = n.globalProcess || parent.globalProcess
+		n.globalIgnore = n.globalIgnore || parent.globalIgnore
+	}
+	if len(n.children) == 0 {
+		return
+	}
+	n.rest = &fieldMasksNode{
+		processMasks:  n.processMasks,
+		ignoreMasks:   n.ignoreMasks,
+		globalProcess: n.globalProcess,
+		globalIgnore:  n.globalIgnore,
+		children:      map[string]*fieldMasksNode{},
+	}
+	for _, child := range n.children {
+		child.inheritLists(n)
 	}
 }
 
@@ -123,8 +160,8 @@ func (p *Plugin) gatherFieldMasksTree() error {
 	}
 
 	if p.hasProcessOrIgnoreFields {
+		root.inheritLists(nil)
 		p.fieldMasksRoot = root
-		p.emptyFMNode = newFieldMasksNode()
 	}
 
 	return nil
